@@ -6,11 +6,12 @@ package app
 
 // runTasks: a non-zero exit status of any command of any executed task makes the action fail.
 //@ func (*App).runTasks
-//@ props C09 C19 C20
+//@ props C09 C19 C20 C14
 //@ at entry: ghost runCalls = runCalls + 1
 //@ requires a.Options != nil && runner != nil && TasksInv(spokfile) && I01(cp(spokfile)) && spokfile.Globs != nil && GlobsCurrent(spokfile)
-//@ modifies fexists, fdata, last, ranCount, dagV, dagE, dagItem, dagN, qpos, lastGraph, runPhase, mapOf(spokfile.Globs), lastResults, fswrites, runCalls, stdoutDocs
+//@ modifies fexists, fdata, last, ranCount, dagV, dagE, dagItem, dagN, qpos, lastGraph, runPhase, mapOf(spokfile.Globs), lastResults, fswrites, runCalls, stdoutDocs, lastForce
 //@ ensures runCalls == old(runCalls) + 1
+//@ ensures [C14,force-flag-reaches-the-run] lastForce == a.Options.Force
 //@ at call Println#0: ghost stdoutDocs = snoc(stdoutDocs, text)
 //@ ensures [C20,json-report-printed-once-after-a-run-without-failures] a.Options.JSON && result == nil ==> stdoutDocs == snoc(old(stdoutDocs), resultsJSON(lastResults))
 //@ ensures [C20,nothing-else-goes-to-the-process-stdout] !a.Options.JSON || result != nil ==> stdoutDocs == old(stdoutDocs)
@@ -66,9 +67,10 @@ package app
 
 // handleClean: with a user-defined clean task spok itself removes nothing
 //@ func (*App).handleClean
-//@ props C12 C19 C09
+//@ props C12 C19 C09 C14
 //@ requires a.Options != nil && runner != nil && TasksInv(spokfile) && I01(cp(spokfile)) && spokfile.Globs != nil && GlobsCurrent(spokfile)
-//@ modifies removed, fexists, fdata, last, ranCount, dagV, dagE, dagItem, dagN, qpos, lastGraph, runPhase, mapOf(spokfile.Globs), lastResults, fswrites, runCalls, stdoutDocs
+//@ modifies removed, fexists, fdata, last, ranCount, dagV, dagE, dagItem, dagN, qpos, lastGraph, runPhase, mapOf(spokfile.Globs), lastResults, fswrites, runCalls, stdoutDocs, lastForce
+//@ ensures [C14,force-flag-reaches-the-run] runCalls != old(runCalls) ==> lastForce == a.Options.Force
 //@ ensures [C12,user-clean-task-runs-instead] dom(spokfile.Tasks, "clean") ==> removed == old(removed)
 //@ ensures [C12,only-designated-paths-removed] forall p string :: {removed[p]} removed[p] && !old(removed)[p] ==> Des(spokfile, p) && p != spokfile.Path && !ancOrSelf(p, spokfile.Dir)
 //@ ensures [C19,clean-removes-or-writes-the-cache] forall p string :: {fswrites[p]} fswrites[p] && !old(fswrites)[p] ==> removed[p] || ancOrSelf(join2(spokfile.Dir, ".spok"), p)
@@ -130,9 +132,10 @@ package app
 
 // no task names given: the task called default runs when there is one, otherwise the listing
 //@ func (*App).handleDefault
-//@ props C19 C20 C09
+//@ props C19 C20 C09 C14
 //@ requires a.Options != nil && runner != nil && TasksInv(spokfile) && I01(cp(spokfile)) && spokfile.Globs != nil && GlobsCurrent(spokfile)
-//@ modifies fexists, fdata, last, ranCount, dagV, dagE, dagItem, dagN, qpos, lastGraph, runPhase, mapOf(spokfile.Globs), lastResults, fswrites, runCalls, stdoutDocs, listed
+//@ modifies fexists, fdata, last, ranCount, dagV, dagE, dagItem, dagN, qpos, lastGraph, runPhase, mapOf(spokfile.Globs), lastResults, fswrites, runCalls, stdoutDocs, listed, lastForce
+//@ ensures [C14,force-flag-reaches-the-run] runCalls != old(runCalls) ==> lastForce == a.Options.Force
 //@ ensures [C20,default-task-runs-when-defined] dom(spokfile.Tasks, "default") <==> runCalls == old(runCalls) + 1
 //@ ensures [C20,listing-otherwise] !dom(spokfile.Tasks, "default") ==> runCalls == old(runCalls) && fswrites == old(fswrites) && fdata == old(fdata) && fexists == old(fexists)
 //@ ensures [C19,writes-only-inside-the-cache-directory] forall p string :: {fswrites[p]} fswrites[p] && !old(fswrites)[p] ==> ancOrSelf(join2(spokfile.Dir, ".spok"), p)
@@ -151,10 +154,10 @@ package app
 // Run: the action dispatch. loadedOK is set when the spokfile has been read, parsed and loaded.
 //@ pred projCache(a *App) := join2(dirOf(a.Options.Spokfile), ".spok")
 //@ func (*App).Run
-//@ props C19 C20 C09
+//@ props C19 C20 C09 C14
 //@ requires a.Options != nil
 //@ requires [history-invariant] forall c string :: {fexists[c]} I01(c)
-//@ modifies a.stream, a.logger, a.Options.Spokfile, foundDir, findReadErr, taskIdx, loadedOK, removed, fexists, fdata, last, ranCount, dagV, dagE, dagItem, dagN, qpos, lastGraph, runPhase, lastResults, fswrites, runCalls, stdoutDocs, listed, strmLeft, strmDone, strmExp, strmLastT, strmInput
+//@ modifies a.stream, a.logger, a.Options.Spokfile, foundDir, findReadErr, taskIdx, loadedOK, removed, fexists, fdata, last, ranCount, dagV, dagE, dagItem, dagN, qpos, lastGraph, runPhase, lastResults, fswrites, runCalls, stdoutDocs, listed, lastForce, strmLeft, strmDone, strmExp, strmLastT, strmInput
 //@ at entry: ghost loadedOK = false
 //@ at return file.New#0: ghost loadedOK = (err == nil)
 //@ ensures [C19,init-writes-only-spokfile-and-gitignore] a.Options.Init ==> forall p string :: {fswrites[p]} fswrites[p] && !old(fswrites)[p] ==> p == initSpok() || p == initIgnore()
@@ -165,6 +168,7 @@ package app
 //@ ensures [C19,listing-actions-write-nothing] !a.Options.Init && !a.Options.Fmt && (a.Options.Variables || (!a.Options.Clean && a.Options.Show)) ==> fswrites == old(fswrites) && fdata == old(fdata) && fexists == old(fexists)
 //@ ensures [C19,clean-removes-or-writes-the-cache] !a.Options.Init && !a.Options.Fmt && !a.Options.Variables && a.Options.Clean ==> forall p string :: {fswrites[p]} fswrites[p] && !old(fswrites)[p] ==> removed[p] || ancOrSelf(projCache(a), p)
 //@ ensures [C19,running-writes-only-inside-the-cache-directory] !a.Options.Init && !a.Options.Fmt && !a.Options.Variables && !a.Options.Clean && !a.Options.Show ==> forall p string :: {fswrites[p]} fswrites[p] && !old(fswrites)[p] ==> ancOrSelf(projCache(a), p)
+//@ ensures [C14,force-flag-reaches-the-run] runCalls != old(runCalls) ==> lastForce == a.Options.Force
 //@ ensures [C09,failing-command-fails-the-invocation] result == nil && runCalls != old(runCalls) ==> tasksOk(lastResults, len(lastResults))
 //@ ensures [C20,quiet-without-json-prints-nothing-to-the-process-stdout] !a.Options.JSON ==> stdoutDocs == old(stdoutDocs)
 //@ ensures [C20,json-report-only-after-a-run-without-failures] result != nil ==> stdoutDocs == old(stdoutDocs)
